@@ -279,20 +279,42 @@ def run(ctx):
             r2.violation(key, "force_close_object argument is %s; cannot relate it to the removal test" % show(arg, 80), s.loc)
             continue
         allok = True
-        for blk in g.body.blocks:
-            for st in blk.stmts:
-                if st.k == "assign" and not st.lhs[1] and g.body.names.get(st.lhs[0]) == show(arg):
-                    v = gsl.x.rvalue(st.rv, gsl.x.depth)
-                    if v[0] == "const" and v[2] is False:
+        # every definition of the flag - followed through plain copies, e.g. the result slot of a helper that was inlined - is the constant
+        # false (a short-circuit arm) or !fdt.is_added(file.toi) computed where the other two conditions hold
+        roots = [l for l, nm in g.body.names.items() if nm == show(arg)]
+        work, seen_l, checked = list(roots), set(), 0
+        while work:
+            l_ = work.pop()
+            if l_ in seen_l:
+                continue
+            seen_l.add(l_)
+            for (db_, di_, dk_) in g.body.defs().get(l_, []):
+                if dk_ not in ("whole", "call"):
+                    continue
+                if di_ == "term":
+                    v = gsl.x.call_expr(db_, g.body.blocks[db_].term, gsl.x.depth)
+                    sp_ = g.body.blocks[db_].term.sp
+                else:
+                    st = g.body.blocks[db_].stmts[di_]
+                    sp_ = st.sp
+                    if st.rv.k == "use" and st.rv.ops[0].place is not None and not st.rv.ops[0].place[1] and len(g.body.defs().get(st.rv.ops[0].place[0], [])) > 1:
+                        work.append(st.rv.ops[0].place[0])
                         continue
-                    fs = gflow.facts_at(blk.i)
-                    c1 = any(ff[0][0] == "true" and not ff[1] and show(ff[0][1]) == "self.transfer_fdt_only" for ff in fs)
-                    c2 = any(ff[0][0] == "true" and ff[1] and "can_transfer_be_stopped" in show(ff[0][1]) for ff in fs)
-                    c3 = v[0] == "un" and v[1] == "Not" and v[2][0] == "call" and v[2][1].endswith("Fdt::is_added") and ".toi" in show(v[2][2][1])
-                    if not (c1 and c2 and c3):
-                        allok = False
-                        r2.violation(key, "must_stop_transfer = %s under {%s}: expected !fdt.is_added(file.toi) under "
-                                          "!transfer_fdt_only && can_transfer_be_stopped()" % (show(v, 80), facts_text(gflow, blk.i)[:200]), loc(st.sp))
+                    v = gsl.x.rvalue(st.rv, gsl.x.depth)
+                if v[0] == "const" and v[2] is False:
+                    continue
+                checked += 1
+                fs = gflow.facts_at(db_)
+                c1 = any(ff[0][0] == "true" and not ff[1] and show(ff[0][1]) == "self.transfer_fdt_only" for ff in fs)
+                c2 = any(ff[0][0] == "true" and ff[1] and "can_transfer_be_stopped" in show(ff[0][1]) for ff in fs)
+                c3 = v[0] == "un" and v[1] == "Not" and v[2][0] == "call" and v[2][1].endswith("Fdt::is_added") and ".toi" in show(v[2][2][1])
+                if not (c1 and c2 and c3):
+                    allok = False
+                    r2.violation(key, "must_stop_transfer = %s under {%s}: expected !fdt.is_added(file.toi) under "
+                                      "!transfer_fdt_only && can_transfer_be_stopped()" % (show(v, 80), facts_text(gflow, db_)[:200]), loc(sp_))
+        if not checked:
+            allok = False
+            r2.violation(key, "the force flag is never computed from the removal test", s.loc)
         if allok:
             r2.ok(key, "!transfer_fdt_only && can_transfer_be_stopped() && !fdt.is_added(toi)", s.loc)
     r2.floor(5, "close flag sources")
@@ -346,6 +368,9 @@ def run(ctx):
     for bb, t in br.body.calls():
         e = x.call_expr(bb, t, x.depth)
         if re.search(r"Index.*::index$", e[1]) and "self.shards" in show(e[2][0]) and "self.read_index" in show(e[2][1]):
+            idx_ok = True
+        # `self.shards.get(self.read_index as usize)?` selects the same element (None past the end instead of the is_empty() early return)
+        if re.search(r"(<impl \[T\]>|Vec|VecDeque)::get$", e[1]) and len(e[2]) == 2 and "self.shards" in show(e[2][0]) and "self.read_index" in show(e[2][1]):
             idx_ok = True
     if idx_ok:
         r4.ok("Block::read emits shards[read_index]", "", loc(br.sp))
@@ -443,7 +468,7 @@ def shard_rule(ctx, rule):
             "RaptorQ": "create_shards_raptorq", "Raptor": "create_shards_raptor"}
     seen = {}
     for s in call_sites(f, lambda p, c: p.startswith(BLOCK + "::create_shards_")):
-        variants = [a[2] for (a, t) in fl.facts_at(s.bb) if a[0] == "variant" and t and "fec_encoding_id" in show(a[1])]
+        variants = held_variants(fl.facts_at(s.bb), lambda e_: "fec_encoding_id" in show(e_))
         name = s.term.callee_path().split("::")[-1]
         for v in variants:
             seen[v] = name
@@ -509,6 +534,11 @@ def shard_rule(ctx, rule):
             # closure parameter is the (index, chunk) tuple
             if re.search(r"\.0\b|index", a1) and re.search(r"\.1\b|chunk", a0):
                 okesi = True
+    # the same numbering as an explicit loop: `for (index, chunk) in buffer.chunks(E).enumerate() { shards.push(DataFecShard::new(chunk, index)) }`
+    for s in call_sites(nc, lambda p, c: p == "fec::DataFecShard::new"):
+        a0, a1 = show(ncs.expand(s.expr[2][0]), 200), show(ncs.expand(s.expr[2][1]), 200)
+        if re.search(r"Enumerate::next\(.*\)@Some\.0\.0\b", a1) and re.search(r"Enumerate::next\(.*\)@Some\.0\.1\b", a0):
+            okesi = True
     en = call_sites(nc, lambda p, c: p.endswith("Iterator::enumerate"))
     if okesi and en:
         rule.ok("create_shards_no_code ESI = position", "enumerate() index -> DataFecShard::new(chunk, index)", loc(nc.sp))
@@ -518,13 +548,14 @@ def shard_rule(ctx, rule):
     cs_fn = prog.fn("fec::rscodec::RSCodecParam::create_shards")
     ctx.analysed(cs_fn.path)
     chunks = call_sites(cs_fn, lambda p, c: re.search(r"<impl \[T\]>::chunks$", p) is not None)
-    if chunks and all(show(strip_ref(s.expr[2][1])) == "self.encoding_symbol_length" and show(strip_ref(s.expr[2][0])) == "data" for s in chunks):
+    css_ = Slicer(cs_fn.body)
+    if chunks and all(show(strip_ref(css_.expand(s.expr[2][1]))) == "self.encoding_symbol_length" and show(strip_ref(s.expr[2][0])) == cs_fn.body.names.get(2, "data") for s in chunks):
         rule.ok("RS create_shards chunks(E)", "", chunks[0].loc)
     else:
         rule.violation("RS create_shards chunks(E)", "source shards are not data.chunks(self.encoding_symbol_length)", loc(cs_fn.sp))
     cfl = Flow(cs_fn.body)
     rz = call_sites(cs_fn, lambda p, c: re.search(r"Vec.*::resize$", p) is not None)
-    okpad = rz and all(show(strip_ref(s.expr[2][1])) == "self.encoding_symbol_length" and show(s.expr[2][2]) == "0" for s in rz)
+    okpad = rz and all(show(strip_ref(css_.expand(s.expr[2][1]))) == "self.encoding_symbol_length" and show(s.expr[2][2]) == "0" for s in rz)
     if okpad:
         rule.ok("RS create_shards pads the last shard", "resize(E, 0)", rz[0].loc)
     else:
@@ -549,6 +580,16 @@ def shard_rule(ctx, rule):
                     sv = show(cs_.expand(cs_.x.operand(st.rv.ops[names.index("shard")])), 80)
                     if re.search(r"index|\.0\b", iv) and re.search(r"shard|\.1\b", sv):
                         okidx = True
+    # the same as an explicit loop over `shards.into_iter().enumerate()`
+    ens_ = Slicer(enc.body)
+    for blk in enc.body.blocks:
+        for st in blk.stmts:
+            if st.k == "assign" and st.rv.k == "aggr" and st.rv.j.get("adt") == "fec::DataFecShard" and not blk.cleanup:
+                names = st.rv.j["fnames"]
+                iv = show(ens_.expand(ens_.x.operand(st.rv.ops[names.index("index")])), 200)
+                sv = show(ens_.expand(ens_.x.operand(st.rv.ops[names.index("shard")])), 200)
+                if re.search(r"Enumerate::next\(.*\)@Some\.0\.0\b", iv) and re.search(r"Enumerate::next\(.*\)@Some\.0\.1\b", sv):
+                    okidx = True
     if okidx and call_sites(enc, lambda p, c: p.endswith("Iterator::enumerate")):
         rule.ok("RS encode ESI = position", "", loc(enc.sp))
     else:
